@@ -348,3 +348,152 @@ func ruleR18_7(w *World, r *Report) {
 		r.Lost("NewNotifyManager: SetClientID")
 	}
 }
+
+// ---------------------------------------------------------------------------------------------
+// round 3
+
+// R13.5 a subscriber's own early operations are dropped, and the response option starts clean
+func ruleR13_5(w *World, r *Report) {
+	u := w.Server()
+	r.Rule("R13.5", "subscribeDatatype discards the operations the subscribing client sent along (they were issued against a state the subscription replaces) on every successful path, independently of the request's other bits; and the response option is reset to 'normal' right after the response pack is created, before the request is classified, so that only the create/subscribe paths announce create/subscribe", 2)
+	if fn := u.Fn(pService, "PushPullHandler", "subscribeDatatype"); fn == nil {
+		r.Lost("PushPullHandler.subscribeDatatype")
+	} else {
+		good := false
+		pos := u.Pos(fn.Pos())
+		for _, st := range storesTo(fn, "$0.gotPushPullPack.Operations") {
+			if c, ok := st.Val.(*ssa.Const); ok && c.Value == nil && (alwaysRuns(st) || runsOnSuccess(st)) {
+				good = true
+				pos = u.Pos(st.Pos())
+			}
+		}
+		r.Check(good, "subscribeDatatype/pushed operations dropped", pos, "gotPushPullPack.Operations = nil on every successful path", "a subscribing client's operations are not (or only conditionally) discarded: they are appended to the log although the client itself throws them away, and its later operations are taken for duplicates")
+	}
+	proc := u.Fn(pService, "PushPullHandler", "process")
+	if proc == nil {
+		r.Lost("PushPullHandler.process")
+		return
+	}
+	normal := ""
+	if p := u.Pkgs[pModel]; p != nil {
+		if c, ok := p.Types.Scope().Lookup("PushPullBitNormal").(*types.Const); ok {
+			normal = c.Val().ExactString()
+		}
+	}
+	d := deepOf(proc)
+	rps, cls := d.stores("$0.resPushPullPack"), d.stores("$0.casePushPull")
+	good := false
+	var at dins
+	for _, x := range d.stores("$0.resPushPullPack.Option") {
+		st := x.in.(*ssa.Store)
+		k, isK := st.Val.(*ssa.Const)
+		if !isK || k.Value == nil || normal == "" || k.Value.ExactString() != normal {
+			continue
+		}
+		ok := len(rps) > 0 && len(cls) > 0
+		for _, rp := range rps {
+			if underDefer(rp) {
+				continue
+			}
+			if rp.in != x.in && !d.dominates(rp, x) && !(rp.n == x.n && instrDominates(rp.in, x.in)) {
+				ok = false
+			}
+		}
+		for _, cl := range cls {
+			if !d.dominates(x, cl) {
+				ok = false
+			}
+		}
+		if ok {
+			good, at = true, x
+		}
+	}
+	pos := u.Pos(proc.Pos())
+	if good {
+		pos = d.pos(u, at)
+	}
+	r.Check(good, "process/response option reset", pos, "resPushPullPack.Option = PushPullBitNormal before the classification", "the response option is not reset to normal after the response pack is derived from the request: a plain answer echoes the request's create/subscribe bits and the client takes it for a fresh subscription (it wipes its state and restarts its numbering)")
+}
+
+// underDefer: the deep instruction belongs to a deferred call of the root (the exit function).
+func underDefer(x dins) bool {
+	for a := x.n; a != nil; a = a.parent {
+		if a.site != nil {
+			if _, isDefer := a.site.(*ssa.Defer); isDefer {
+				return true
+			}
+		}
+	}
+	return false
+}
+
+// R14.7 values handed to an operation body are a fresh copy
+func ruleR14_7(w *World, r *Report) {
+	u := w.Client()
+	r.Rule("R14.7", "ConvertValueList returns a freshly built slice (nil or make, grown by append), never a re-slice of the caller's argument: the values stored in an operation body must not change when the caller reuses its slice before the operation is encoded", 1)
+	fn := u.Fn(pTypes, "", "ConvertValueList")
+	if fn == nil {
+		r.Lost("types.ConvertValueList")
+		return
+	}
+	n := 0
+	forEachInstr(fn, func(in ssa.Instruction) {
+		ret, ok := in.(*ssa.Return)
+		if !ok || len(ret.Results) != 2 {
+			return
+		}
+		if c, isC := ret.Results[0].(*ssa.Const); isC && c.Value == nil {
+			return
+		}
+		n++
+		bad := ""
+		seen := map[ssa.Value]bool{}
+		var walk func(v ssa.Value, d int)
+		walk = func(v ssa.Value, d int) {
+			if seen[v] || d > 20 {
+				return
+			}
+			seen[v] = true
+			switch x := v.(type) {
+			case *ssa.Phi:
+				for _, e := range x.Edges {
+					walk(e, d+1)
+				}
+			case *ssa.Call:
+				if b, isB := x.Call.Value.(*ssa.Builtin); isB && b.Name() == "append" {
+					walk(x.Call.Args[0], d+1)
+					return
+				}
+				bad = "the result of " + calleeName(x)
+			case *ssa.Slice:
+				walk(x.X, d+1)
+			case *ssa.ChangeType:
+				walk(x.X, d+1)
+			case *ssa.Const:
+				if x.Value != nil {
+					bad = "a constant"
+				}
+			case *ssa.MakeSlice:
+			case *ssa.UnOp:
+				if al, isAl := x.X.(*ssa.Alloc); isAl {
+					for _, rf := range realRefs(al) {
+						if st, isSt := rf.(*ssa.Store); isSt && st.Addr == ssa.Value(al) {
+							walk(st.Val, d+1)
+						}
+					}
+					return
+				}
+				bad = exprName(v)
+			case *ssa.Parameter:
+				bad = "the caller's slice " + x.Name()
+			default:
+				bad = exprName(v)
+			}
+		}
+		walk(ret.Results[0], 0)
+		r.Check(bad == "", "types.ConvertValueList/fresh slice", u.Pos(ret.Pos()), "nil/make grown by append", "the returned slice is built on "+bad+": the operation body shares memory with the caller's argument")
+	})
+	if n == 0 {
+		r.Lost("types.ConvertValueList: value return")
+	}
+}
